@@ -122,6 +122,7 @@ type credVal struct {
 	SessR, SessW int
 	SessKind     string // "", "valid", "expired", "reset", "unknown"
 	WaitSoon     bool   // needs the soon-expiring key to have expired
+	ResetAuthz   string // Authorization header sent along with the session reset request
 }
 
 const (
@@ -208,6 +209,10 @@ func credValues(tk *tableKeys) []credVal {
 		}
 	}
 	add(credVal{Tag: "cookie-reset", Group: "cookie", SessKind: "reset", SessR: 3, SessW: 3})
+	for i, az := range resetAuthzVariants(tk)[1:] {
+		// the reset request itself carries an Authorization header
+		add(credVal{Tag: fmt.Sprintf("cookie-reset/authz%d", i+1), Group: "cookie", SessKind: "reset", SessR: 3 + i%2, SessW: 4 - i%2, ResetAuthz: az})
+	}
 	add(credVal{Tag: "cookie-unknown", Group: "cookie", SessKind: "unknown"})
 	// API keys
 	forms := func(tag, group, key string) {
